@@ -284,6 +284,7 @@ type c20LOp struct {
 type c20LifeCase struct {
 	Backend string   `json:"backend"`
 	PollUs  int      `json:"poll_us"`
+	Slow    int      `json:"slow"` // each gauge supplier call takes Slow/2 poll periods (a Stop then usually lands in the middle of a poll)
 	Ops     []c20LOp `json:"ops"`
 }
 
@@ -303,6 +304,7 @@ func genC20L(t *rapid.T) c20LifeCase {
 		}
 	})
 	c.Ops = rapid.SliceOfN(op, 2, 10).Draw(t, "ops")
+	c.Slow = rapid.SampledFrom([]int{0, 1, 2, 4}).Draw(t, "slow")
 	return c
 }
 
@@ -344,11 +346,16 @@ func runC20L(_ *testing.T, c c20LifeCase) (out kit.Outcome) {
 		mu.Lock()
 		polls = append(polls, pollRec{s, g})
 		mu.Unlock()
+		if c.Slow > 0 {
+			time.Sleep(time.Duration(c.Slow) * period / 2)
+		}
 		return 1, true
 	}
 	nPolls := func() int { mu.Lock(); defer mu.Unlock(); return len(polls) }
 	b.reg.RegisterGauge("g0", supplier)
-	gauges := 1
+	b.reg.RegisterGauge("g1", supplier)
+	b.reg.RegisterGauge("g2", supplier)
+	gauges := 3
 	running := false                   // model: between a Start and the next returned Stop
 	var intervalStart int64            // stamp taken right before the Start that opened the current interval
 	var quietFrom int64 = clock.Add(1) // polls stamped after this (and before the next Start) are illegal
@@ -471,7 +478,7 @@ func runC20L(_ *testing.T, c c20LifeCase) (out kit.Outcome) {
 	// gauges reach the backend with the supplier's value
 	b.close()
 	out.NonTrivial = sawDoubleStart && sawStop && sawPauseAfterStop
-	out.Labels = []string{"backend:" + c.Backend}
+	out.Labels = []string{"backend:" + c.Backend, fmt.Sprintf("slow-supplier:%v", c.Slow > 0)}
 	if sawDoubleStart {
 		out.Labels = append(out.Labels, "start-start")
 	}
